@@ -134,6 +134,13 @@ func (v *FnVC) frameGoals(keys []string) map[string]string {
 		return out
 	}
 	next0 := v.init("nextref")
+	since := v.sinceKeys(v.fc)
+	since0 := ""
+	if v.fc.SinceGhost != "" {
+		if g, ok := v.w.cs.Ghosts[v.fc.SinceGhost]; ok {
+			since0 = v.init(v.w.ghostKey(g))
+		}
+	}
 	for _, key := range keys {
 		if strings.HasPrefix(key, "L:") || key == "nextref" {
 			continue
@@ -168,7 +175,44 @@ func (v *FnVC) frameGoals(keys []string) map[string]string {
 		for _, l := range locs {
 			excl = append(excl, fmt.Sprintf("(not (= r! %s))", l))
 		}
+		if since[key] && since0 != "" {
+			// objects created since the snapshot point may be written
+			excl = append(excl, fmt.Sprintf("(< r! %s)", since0))
+		}
 		out[key] = fmt.Sprintf("(forall ((r! Int)) (! (=> (and (< r! %s) %s) (= (select %s r!) (select %s r!))) :pattern ((select %s r!))))", next0, and(excl...), cur, init, cur)
+	}
+	return out
+}
+
+// sinceKeys: heap keys named by a modifies-since clause of fc.
+func (v *FnVC) sinceKeys(fc *FuncContract) map[string]bool {
+	out := map[string]bool{}
+	pkg := v.w.pkgByPath(fc.Pkg)
+	if pkg == nil && v.fn != nil {
+		pkg = v.fn.Pkg
+	}
+	for _, h := range fc.SinceHeaps {
+		if strings.HasPrefix(h, "E[") && strings.HasSuffix(h, "]") {
+			if t := v.w.parseType(h[2:len(h)-1], pkg); t != nil {
+				out[v.elemKey(t)] = true
+			}
+			continue
+		}
+		if k := strings.Index(h, "."); k > 0 {
+			if tn := v.w.lookupType(h[:k], pkg); tn != nil {
+				if st, ok := tn.Underlying().(*types.Struct); ok {
+					for i := 0; i < st.NumFields(); i++ {
+						if st.Field(i).Name() == h[k+1:] {
+							var items []frameItem
+							v.frameWholeField(&items, st, structName(tn), i)
+							for _, it := range items {
+								out[it.whole] = true
+							}
+						}
+					}
+				}
+			}
+		}
 	}
 	return out
 }
